@@ -18,7 +18,7 @@ func init() {
 		Fn:          c16,
 		Level:       "exploration",
 		Builds:      []string{"default", "purego"},
-		Rule:        "histories over {Append, AppendMany (crossing LowCardinality key widths), Reset, Prepare, Infer, EncodeColumn, WriteColumn+Flush, EncodeRawBlock, Reset+Decode(valid data, incl. reference-encoded LowCardinality with forced key widths), Reset+Decode(truncated), DecodeBlock through bound Results (0 rows with columns, 1, 2, 5 rows; no explicit Reset), SetInPlace (rows rewritten through exported column memory)} on one column object, checked after every step against a list-of-values model: Rows(), Row(i) for all i, and the reference decode of every encoding. Random histories of length <= 40 for every catalogue column and boxed random compositions; ColEnum re-inferred with renumbered / widened definitions and ColDateTime64 re-inferred with another precision / zone while still holding rows (Infer, Reset, Decode as DecodeResult does; then Append / Encode / Row / Type); exhaustive histories of length <= 4 (quick) / 5 (thorough) over a reduced alphabet for LowCardinality, Enum, String, Array, Map, Nullable, DateTime64. Non-trivial = >=2 encodes or a decode after use; distinct = (type, kind, history)",
+		Rule:        "histories over {Append, AppendArr (bulk, with all-zero values mixed in), AppendMany (crossing LowCardinality key widths), Reset, Prepare, Infer, EncodeColumn, WriteColumn+Flush, EncodeRawBlock, Reset+Decode(valid data, incl. reference-encoded LowCardinality with forced key widths), Reset+Decode(truncated), DecodeBlock through bound Results (0 rows with columns, 1, 2, 5 rows; no explicit Reset), SetInPlace (rows rewritten through exported column memory)} on one column object, checked after every step against a list-of-values model: Rows(), Row(i) for all i, and the reference decode of every encoding. Random histories of length <= 40 for every catalogue column and boxed random compositions; ColEnum re-inferred with renumbered / widened definitions and ColDateTime64 re-inferred with another precision / zone while still holding rows (Infer, Reset, Decode as DecodeResult does; then Append / Encode / Row / Type); exhaustive histories of length <= 4 (quick) / 5 (thorough) over a reduced alphabet for LowCardinality, Enum, String, Array, Map, Nullable, DateTime64. Non-trivial = >=2 encodes or a decode after use; distinct = (type, kind, history)",
 		Assumptions: []string{"contract: no decode into a non-empty column (Reset precedes every decode); after a failed decode the next operation is Reset; Preparable columns are prepared before encoding"},
 		MinDistinct: 500,
 	}
@@ -38,10 +38,11 @@ const (
 	opAppendSeen
 	opDecodeBlock
 	opSetInPlace
+	opAppendArr
 	nOps16 = opDecodeTrunc + 1
 )
 
-var opNames = []string{"Append", "AppendMany", "Reset", "Prepare", "Infer", "EncodeColumn", "WriteColumn", "EncodeRawBlock", "Reset+Decode", "Reset+DecodeTruncated", "AppendSeen", "DecodeBlock", "SetInPlace"}
+var opNames = []string{"Append", "AppendMany", "Reset", "Prepare", "Infer", "EncodeColumn", "WriteColumn", "EncodeRawBlock", "Reset+Decode", "Reset+DecodeTruncated", "AppendSeen", "DecodeBlock", "SetInPlace", "AppendArr"}
 
 type c16State struct {
 	r      *core.Run
@@ -256,6 +257,23 @@ func (s *c16State) apply(op int) {
 			if len(s.hist) > 1 {
 				s.decAft = true
 			}
+		case opAppendArr:
+			// the bulk append (what Array(T).Append uses for its elements), incl. zero values
+			aa, can := s.col.(val.ArrAppender)
+			if !can {
+				s.hist[len(s.hist)-1] += "(skipped)"
+				return
+			}
+			n := []int{0, 1, 2, 5, 9}[s.rng.Intn(5)]
+			vs := val.GenColumn(s.rng, s.t, n, val.GenOpt{MaxElem: 3})
+			for i := range vs {
+				if s.rng.Intn(3) == 0 && len(vs[i].B) > 0 && !vs[i].IsL && !vs[i].Null && len(s.t.Args) == 0 && s.t.Width() > 0 && s.t.Base != "Enum8" && s.t.Base != "Enum16" {
+					vs[i] = ref.Leaf(make([]byte, len(vs[i].B))) // the all-zero value of a fixed-width leaf
+				}
+			}
+			aa.AppendArr(vs)
+			s.model = append(s.model, vs...)
+			s.hist[len(s.hist)-1] += fmt.Sprintf("(%d)", n)
 		case opSetInPlace:
 			// rows rewritten through the column's exported memory (no Reset, same row count)
 			st, can := s.col.(val.Setter)
@@ -365,11 +383,13 @@ func c16Run(r *core.Run, idx int64, ts string, mk func() (val.LibCol, error), op
 	} else {
 		many := 0
 		for i := 0; i < random && !s.bad; i++ {
-			op := s.rng.Intn(nOps16 + 2)
+			op := s.rng.Intn(nOps16 + 3)
 			if op == nOps16 {
 				op = opDecodeBlock
 			} else if op == nOps16+1 {
 				op = opSetInPlace
+			} else if op == nOps16+2 {
+				op = opAppendArr
 			}
 			if s.dirty {
 				op = opReset
@@ -441,7 +461,7 @@ func c16(r *core.Run) {
 		c16DT64Reinfer(r, ci)
 	}
 	// exhaustive short histories over a reduced alphabet for the stateful column kinds
-	alpha := []int{opAppend, opAppendSeen, opEncode, opReset, opDecode, opDecodeBlock, opSetInPlace, opAppendMany}
+	alpha := []int{opAppend, opAppendSeen, opAppendArr, opEncode, opReset, opDecode, opDecodeBlock, opSetInPlace, opAppendMany}
 	L := r.Pick(4, 5)
 	types := []string{"LowCardinality(String)", "Array(LowCardinality(String))", "Enum8('hello' = 1, 'world' = 2, 'x y' = -5)", "String", "Array(String)", "Map(String, String)", "Nullable(String)", "DateTime64(3)", "Map(LowCardinality(String), Array(String))"}
 	for _, ts := range types {
